@@ -10,7 +10,7 @@ import (
 // C13.iter (also serves C04): structural clauses of avfs.PathIterator.
 
 func init() {
-	register(&Rule{ID: "C13.iter", Floor: 6, Also: []string{"C04"},
+	register(&Rule{ID: "C13.iter", Floor: 6, Also: []string{"C04", "C07"}, AlsoOnly: map[string][]string{"C07": {" cursor"}}, AlsoFloor: map[string]int{"C07": 1},
 		Text: "PathIterator: Left, Part and Right slice the path at the same two cursors ([:start], [start:end], [end:]) so that they always reassemble it; Next moves start to end+1 and end to the next separator or the end of the path; ReplacePart assigns Join(path[:start], new, path[end:]) (Join(new, path[end:]) for an absolute replacement) and keeps the cursor only when the whole prefix path[:start] — compared with the same bound on both sides — is unchanged, otherwise it restarts",
 		Run:  c13Iter})
 }
@@ -54,6 +54,7 @@ func c13Iter(rc *RuleCtx) {
 	} else {
 		cons := "avfs.(*PathIterator).Next cursor"
 		okStart, okEnd := false, 0
+		clamped := false
 		eachInstr(f, func(in ssa.Instruction) {
 			st, ok := in.(*ssa.Store)
 			if !ok {
@@ -65,9 +66,19 @@ func c13Iter(rc *RuleCtx) {
 			}
 			switch fieldName(fa.X.Type(), fa.Field) {
 			case "start":
-				if sym(st.Val) == "(pi.end + 1)" {
+				switch sym(st.Val) {
+				case "(pi.end + 1)":
 					okStart = true
-				} else {
+				case "len(pi.path)":
+					// the clamp of the exhausted iterator: only under `start >= len(path)`
+					clamped = false
+					for _, fact := range factsAt(st.Block()) {
+						c, truth := normCond(fact.Cond, fact.Truth)
+						if bo, ok := c.(*ssa.BinOp); ok && truth && bo.Op == token.GEQ && sym(bo.X) == "pi.start" && sym(bo.Y) == "len(pi.path)" {
+							clamped = true
+						}
+					}
+				default:
 					okStart = false
 				}
 			case "end":
@@ -79,8 +90,10 @@ func c13Iter(rc *RuleCtx) {
 				}
 			}
 		})
-		if okStart && okEnd == 3 {
-			rc.good(cons, f.Pos(), "start = end+1; end = start | len(path) | start + index of the next separator")
+		if okStart && okEnd == 3 && !clamped {
+			rc.bad(cons, f.Pos(), "when the parts are exhausted the cursor is left one position beyond the end of the path (start = end + 1 > len(path)): for a path that is exactly a volume name (a UNC share without trailing separator) Part() slices out of range and the call panics")
+		} else if okStart && okEnd == 3 {
+			rc.good(cons, f.Pos(), "start = end+1, clamped to len(path) when the parts are exhausted; end = start | len(path) | start + index of the next separator")
 		} else {
 			rc.bad(cons, f.Pos(), "Next does not move the cursors as start = end+1 and end = next separator / end of path: parts are skipped, repeated or cut")
 		}
